@@ -17,7 +17,7 @@ RULE = ('model-based testing over operation sequences: a sequence of JSON operat
         'copy from another element followed by a mutation of the source} is applied to a real element (segment with its fields incl. '
         'Z-/open-ended segments; message or group with its segments; field with its components) and to a plain reference model '
         '(per child name an ordered list of repetition texts + creation order); after every step the encoding and the per-name '
-        'repetition lists must equal the model. Sequences: all sequences of length <= 3 over a fixed 9-operation alphabet '
+        'repetition lists must equal the model. Sequences: all sequences of length <= 3 over a fixed 10-operation alphabet '
         '(exhaustive part) and Hypothesis-drawn sequences of up to 25 operations over drawn (version, element) cells. Non-trivial = '
         'a replace or delete executed while some child has >= 2 repetitions; distinct by hash of (cell, operation sequence).')
 ASSUMPTIONS = [
@@ -54,8 +54,8 @@ class SegmentWorld(object):
         self.el = Segment(self.s, version=self.v, validation_level=TOL)
         self.model = {}
         self.other = Segment(self.s, version=self.v, validation_level=TOL)
-        for name, idx, ln, vals in self.fields:
-            setattr(self.other, name, vals[-1])
+        for f_ in self.fields:
+            setattr(self.other, f_[0], f_[3][-1])
         if cell.get('start'):
             # start from a parsed text: two repetitions of the first field, one of the last
             f0, f1 = self.fields[0], self.fields[-1]
@@ -119,8 +119,8 @@ class ListWorld(object):
             self.order = []
         self.other = Group(cell['s'], version=self.v, validation_level=TOL) if cell['kind'] != 'message' else \
             Message(cell['s'], version=self.v, validation_level=TOL)
-        for name, _, _, vals in self.fields:
-            setattr(self.other, name, vals[-1])
+        for f_ in self.fields:
+            setattr(self.other, f_[0], f_[3][-1])
 
     @property
     def model(self):
@@ -159,8 +159,8 @@ class FieldWorld(SegmentWorld):
         self.finfo = {f[0]: f for f in self.fields}
         self.el = Field(self.s, version=self.v, validation_level=TOL)
         self.other = Field(self.s, version=self.v, validation_level=TOL)
-        for name, idx, ln, vals in self.fields:
-            setattr(self.other, name, vals[-1])
+        for f_ in self.fields:
+            setattr(self.other, f_[0], f_[3][-1])
         self.model = {}
 
     def spelled(self, name, how):
@@ -301,6 +301,30 @@ def apply_op(w, op):
                 _model_del(w, name, i)
             else:
                 return [], 'skipped'
+        elif kind == 'set_datatype':
+            # a datatype object assigned by name: only where the child is of that base datatype
+            dt = info[5] if len(info) > 5 else None
+            if not dt:
+                return [], 'skipped'
+            obj = T.lib(w.v).BASE_DATATYPES[dt](val) if dt not in ('NM', 'SI', 'DT', 'TM', 'DTM') else None
+            if obj is None:
+                from hl7apy.factories import datatype_factory
+                obj = datatype_factory(dt, val, w.v, 2)
+            setattr(el, w.spelled(name, op.get('spell', 'name')), obj)
+            _model_set(w, name, 0, val)
+        elif kind == 'read':
+            # navigation below the child (two levels when the tables allow it), with a few observations: no effect on the model
+            proxy = getattr(el, w.spelled(name, op.get('spell', 'name')))
+            len(proxy), list(proxy), repr(proxy)
+            deeper = info[4] if len(info) > 4 else None
+            if deeper:
+                q = getattr(proxy, deeper[0])
+                len(q), repr(q)
+                q.to_er7()
+                if len(deeper) > 1:
+                    getattr(q, deeper[1]).to_er7()
+            else:
+                proxy.to_er7()
         elif kind == 'copy':
             src = getattr(w.other, name)
             donor_before = w.other.to_er7()
@@ -363,7 +387,7 @@ def check(case, acc=None):
     for n, op in enumerate(case['ops']):
         many = any(len(r) >= 2 for r in w.model.values())
         vs, kind = apply_op(w, op)
-        if many and kind in ('set', 'setidx', 'set_element', 'del', 'delidx', 'remove', 'copy'):
+        if many and kind in ('set', 'setidx', 'set_element', 'set_datatype', 'del', 'delidx', 'remove', 'copy'):
             nontrivial = True
         vs = vs or compare(w)
         if vs:
@@ -386,6 +410,16 @@ def _vals(v, ref):
     return [lit.valid(dt, k) for k in range(5)]
 
 
+def _deeper(v, ref):
+    """names of a component (and a sub-component) below a field reference, for traversal reads"""
+    ch = T.ref_children(v, ref)
+    if not ch:
+        return None
+    c = ch[-1]
+    sub = T.ref_children(v, c[2])
+    return [c[0]] + ([sub[0][0]] if sub else [])
+
+
 def segment_cell(v, s, picks, start=False):
     rows = T.seg_fields(v, s)
     from hl7apy.core import Segment
@@ -393,7 +427,8 @@ def segment_cell(v, s, picks, start=False):
     fields = []
     for r in picks:
         name, i, ref, card = rows[r]
-        fields.append([name, i, longs.get(name), _vals(v, ref)])
+        bdt = ref[2] if (ref[2] and ref[2] != 'varies' and T.is_base(v, ref[2]) and ref[2] != 'TN') else None
+        fields.append([name, i, longs.get(name), _vals(v, ref), _deeper(v, ref), bdt])
     return {'kind': 'segment', 'v': v, 's': s, 'fields': fields, 'start': start}
 
 
@@ -408,7 +443,8 @@ def list_cell(v, m, kind, names):
     for n in names:
         first = T.seg_fields(v, n)[0]
         dt = lit.first_leaf_dt(T, v, first[2])
-        fields.append([n, None, None, ['%s%s%s' % (n, '|' * first[1], lit.valid(dt, k)) for k in range(5)]])
+        fields.append([n, None, None, ['%s%s%s' % (n, '|' * first[1], lit.valid(dt, k)) for k in range(5)],
+                       [first[0]] + (_deeper(v, first[2]) or [])[:1]])
     return {'kind': kind, 'v': v, 's': m, 'fields': fields}
 
 
@@ -417,7 +453,8 @@ def field_cell(v, fname, ref, picks):
     ch = T.ref_children(v, ref)
     longs = admissible_longnames(ch, Field)
     return {'kind': 'field', 'v': v, 's': fname,
-            'fields': [[ch[j][0], ch[j][1], longs.get(ch[j][0]), _vals(v, ch[j][2])] for j in picks]}
+            'fields': [[ch[j][0], ch[j][1], longs.get(ch[j][0]), _vals(v, ch[j][2]),
+                        [T.ref_children(v, ch[j][2])[0][0]] if T.ref_children(v, ch[j][2]) else None] for j in picks]}
 
 
 @st.composite
@@ -462,7 +499,7 @@ def cells(draw, versions):
     return field_cell(v, fname, ref, picks)
 
 
-OPS = ('set', 'setidx', 'set_element', 'add', 'add_child', 'del', 'delidx', 'remove', 'copy')
+OPS = ('set', 'setidx', 'set_element', 'add', 'add_child', 'del', 'delidx', 'remove', 'copy', 'read', 'read', 'set_datatype')
 
 
 @st.composite
@@ -470,7 +507,7 @@ def op_for(draw, cell):
     names = [f[0] for f in cell['fields']]
     kind = draw(st.sampled_from(OPS + ('set', 'add', 'setidx')))
     op = {'op': kind, 'f': draw(st.sampled_from(names)), 'k': draw(st.integers(0, 3))}
-    if kind in ('set', 'del'):
+    if kind in ('set', 'del', 'read', 'set_datatype'):
         op['spell'] = draw(st.sampled_from(SPELLS))
     if kind in ('setidx', 'delidx', 'remove'):
         op['i'] = draw(st.integers(-1, 3))
@@ -497,7 +534,7 @@ def exhaustive_short(acc, cell, maxlen):
     f1 = cell['fields'][-1][0]
     alphabet = [{'op': 'set', 'f': f0, 'k': 0, 'spell': 'name'}, {'op': 'set', 'f': f0, 'k': 1, 'spell': 'lower'},
                 {'op': 'add', 'f': f0, 'k': 2}, {'op': 'add_child', 'f': f1, 'k': 0}, {'op': 'setidx', 'f': f0, 'k': 3, 'i': 1},
-                {'op': 'del', 'f': f0, 'spell': 'name'}, {'op': 'delidx', 'f': f0, 'i': 1}, {'op': 'copy', 'f': f0},
+                {'op': 'del', 'f': f0, 'spell': 'name'}, {'op': 'delidx', 'f': f0, 'i': 1}, {'op': 'copy', 'f': f0}, {'op': 'read', 'f': f1, 'spell': 'lower'},
                 {'op': 'set_element', 'f': f1, 'k': 1}]
     for L in range(1, maxlen + 1):
         for seq in itertools.product(alphabet, repeat=L):
